@@ -272,15 +272,22 @@ impl<'l, Data> LoopHandle<'l, Data> {
         {
             if let Some(source) = source.take() {
                 trace!(source = entry_token.get_id(), "Removing source");
-                if let Err(e) = source.unregister(
+                let unregistered = source.unregister(
                     &mut self.inner.poll.borrow_mut(),
                     &mut self
                         .inner
                         .sources_with_additional_lifecycle_events
                         .borrow_mut(),
                     token,
-                ) {
+                );
+                if let Err(e) = unregistered {
                     warn!("Failed to unregister source from the polling system: {e:?}");
+                    // The source is gone whatever the polling system said: it must not stay
+                    // tracked for lifecycle events (its slot is vacant from now on).
+                    self.inner
+                        .sources_with_additional_lifecycle_events
+                        .borrow_mut()
+                        .unregister(token);
                 }
             }
         }
@@ -606,7 +613,7 @@ impl<'l, Data> EventLoop<'l, Data> {
                 {
                     // the source has been removed from within its callback, unregister it
                     let mut poll = self.handle.inner.poll.borrow_mut();
-                    if let Err(e) = disp.unregister(
+                    let unregistered = disp.unregister(
                         &mut poll,
                         &mut self
                             .handle
@@ -614,8 +621,16 @@ impl<'l, Data> EventLoop<'l, Data> {
                             .sources_with_additional_lifecycle_events
                             .borrow_mut(),
                         RegistrationToken::new(reg_token),
-                    ) {
+                    );
+                    if let Err(e) = unregistered {
                         warn!("Failed to unregister source from the polling system: {e:?}",);
+                        // Same as in `LoopHandle::remove`: a removed source is not tracked
+                        // for lifecycle events any more, even if its unregistration failed.
+                        self.handle
+                            .inner
+                            .sources_with_additional_lifecycle_events
+                            .borrow_mut()
+                            .unregister(RegistrationToken::new(reg_token));
                     }
                 }
             } else {
